@@ -54,7 +54,7 @@ func runC04Ctype(c *Ctx) {
 func init() {
 	register(&Rule{
 		ID:    "C16.fill",
-		Props: []string{"C16", "C20", "C12", "C13", "C17"},
+		Props: []string{"C16", "C20", "C12", "C13", "C17", "C14"},
 		Doc:   "a list of geometries allocated with make([]G, n) and filled by index with the loop's own induction variable is assigned on every path through the loop body: a skipped iteration leaves a zero-value (XY, empty) geometry in the list, which reduces the coordinates type of the whole collection and replaces a member",
 		Floor: 20,
 		Run:   runC16Fill,
